@@ -5,9 +5,13 @@ package load
 // C02 correspondence harness: drives the real adaptive shedder (and ShedderGroup / the disabled
 // nop shedder) under the virtual clock, one operation per trace line.
 //
-//   cfg:  window=<ns> buckets=<n> threshold=<n> t0=<ns> disabled=<0/1> group=<0/1>
+//   cfg:  window=<ns> buckets=<n> threshold=<n> t0=<ns> disabled=<0/1> group=<0/1> opts=<letters>
+//         opts = the options passed, in order: w WithWindow(window) b WithBuckets(buckets) t WithCpuThreshold(threshold),
+//         capitals pass a decoy (window+1000000007, buckets+3, threshold+7) a later option overrides, "-" = none
 //   ops:  t+ <ns>                                     => now=<ns>
-//         allow k=<key> over=<0/1> cpu=<n> p=<id>     => ok|overloaded flying= avg= mp= rt= mf= ot= dr= cpuok= nan=
+//         disable                                     => disabled   (load.Disable(): what is created from now on is a nop shedder)
+//         allow k=<key> over=<0/1/d> cpu=<n> p=<id>   => ok|overloaded flying= avg= mp= rt= mf= ot= dr= cpuok= nan=
+//               over=d: the package's DEFAULT systemOverloadChecker runs (stat.CpuUsage() >= threshold on the injected reading)
 //         pass <id> | fail <id>                       => flying= avg=  | nopromise | nop
 //
 // `over` scripts the package variable systemOverloadChecker, `cpu` is stored into stat's cpuUsage
@@ -53,6 +57,7 @@ type c02G struct {
 	closed   []int
 	nextID   int
 	lastOver int64
+	dflt     bool // the default systemOverloadChecker decides (over=d)
 }
 
 func (g *c02G) adv(d int64) {
@@ -127,6 +132,22 @@ func (g *c02G) allow(over bool, key int) {
 	}
 	id := g.nextID
 	g.nextID++
+	if g.dflt {
+		// the verdict follows from the reading: hot Allows read at / above the threshold, calm ones below (the boundary
+		// readings threshold and threshold-1 included)
+		cpu := g.cpu()
+		if over && cpu < g.thr {
+			cpu = g.r.Pick(g.thr, g.thr, g.thr+1, 1000, (g.thr+1000)/2)
+		} else if !over && cpu >= g.thr {
+			cpu = g.r.Pick(g.thr-1, g.thr-1, g.thr-2, 0, g.thr/2)
+		}
+		if cpu >= g.thr {
+			g.lastOver = g.now
+		}
+		g.ops = append(g.ops, fmt.Sprintf("allow k=%d over=d cpu=%d p=%d", key, cpu, id))
+		g.open = append(g.open, id)
+		return
+	}
 	g.ops = append(g.ops, fmt.Sprintf("allow k=%d over=%d cpu=%d p=%d", key, o, g.cpu(), id))
 	g.open = append(g.open, id)
 }
@@ -252,7 +273,19 @@ func c02Section(r *verifh.Rng, kind int) verifh.Section {
 	// 1000 = cpuMax: overloadFactor divides by zero; above: a negative denominator (reachable through WithCpuThreshold only)
 	thr := r.Pick(0, 100, 500, 900, 900, 999, 1000, 1000, 1001, 1500, r.Range(1, 998), r.Range(1, 998))
 	t0 := int64(r.Pick(1, 1000, 123456789, 999999999, 86400000000000))
-	g := &c02G{r: r, now: t0, t0: t0, interval: sh.window / int64(sh.buckets), size: sh.buckets, thr: thr, keys: 1, lastOver: t0}
+	// which options are passed, and in which order: what is left out takes the default of NewAdaptiveShedder
+	letters := r.PickS("wbt", "wbt", "wbt", "tbw", "bwt", "wb", "bt", "wt", "w", "b", "t", "-", "Twbt", "wBbt", "Wtwb", "TtBbWw")
+	ew, eb, et := int64(5e9), 50, 900
+	if strings.Contains(letters, "w") {
+		ew = sh.window
+	}
+	if strings.Contains(letters, "b") {
+		eb = sh.buckets
+	}
+	if strings.Contains(letters, "t") {
+		et = thr
+	}
+	g := &c02G{r: r, now: t0, t0: t0, interval: ew / int64(eb), size: eb, thr: et, keys: 1, lastOver: t0, dflt: r.Chance(1, 3)}
 	disabled, group := 0, 0
 	switch kind {
 	case 1:
@@ -266,7 +299,18 @@ func c02Section(r *verifh.Rng, kind int) verifh.Section {
 		nsteps = 3
 	}
 	dbl := r.Chance(1, 15)
+	disableAt := -1
+	if disabled == 0 && r.Chance(1, 4) {
+		// Disable() in the middle: existing shedders go on, keys first used afterwards get the nop shedder
+		disableAt = r.Intn(nsteps)
+	}
 	for i := 0; i < nsteps; i++ {
+		if i == disableAt {
+			g.ops = append(g.ops, "disable")
+			if group == 1 {
+				g.keys = 6
+			}
+		}
 		switch x := r.Intn(100); {
 		case x < 14:
 			g.ramp()
@@ -288,7 +332,7 @@ func c02Section(r *verifh.Rng, kind int) verifh.Section {
 			}
 		}
 	}
-	cfg := fmt.Sprintf("window=%d buckets=%d threshold=%d t0=%d disabled=%d group=%d", sh.window, sh.buckets, thr, t0, disabled, group)
+	cfg := fmt.Sprintf("window=%d buckets=%d threshold=%d t0=%d disabled=%d group=%d opts=%s", sh.window, sh.buckets, thr, t0, disabled, group, letters)
 	return verifh.Section{Cfg: cfg, Ops: g.ops}
 }
 
@@ -365,7 +409,23 @@ func TestVerifC02(t *testing.T) {
 		disabled := cfg.Int("disabled", 0) == 1
 		group := cfg.Int("group", 0) == 1
 		timex.VerifSetNow(t0)
-		opts := []ShedderOption{WithWindow(window), WithBuckets(buckets), WithCpuThreshold(threshold)}
+		var opts []ShedderOption
+		for _, c := range cfg.Str("opts", "wbt") {
+			switch c {
+			case 'w':
+				opts = append(opts, WithWindow(window))
+			case 'b':
+				opts = append(opts, WithBuckets(buckets))
+			case 't':
+				opts = append(opts, WithCpuThreshold(threshold))
+			case 'W':
+				opts = append(opts, WithWindow(window+1000000007))
+			case 'B':
+				opts = append(opts, WithBuckets(buckets+3))
+			case 'T':
+				opts = append(opts, WithCpuThreshold(threshold+7))
+			}
+		}
 		var single Shedder
 		var grp *ShedderGroup
 		if disabled {
@@ -387,12 +447,19 @@ func TestVerifC02(t *testing.T) {
 			switch op[0] {
 			case "t+":
 				return fmt.Sprintf("now=%d", int64(timex.VerifAdvance(time.Duration(verifh.Atoi64(op[1])))))
+			case "disable":
+				Disable()
+				return "disabled"
 			case "allow":
 				kv := c02KV(op)
 				over := kv["over"] == "1"
 				cpu := verifh.Atoi64(kv["cpu"])
 				sh := get(kv["k"])
-				systemOverloadChecker = func(int64) bool { return over }
+				if kv["over"] == "d" {
+					systemOverloadChecker = savedChecker
+				} else {
+					systemOverloadChecker = func(int64) bool { return over }
+				}
 				stat.VerifSetCpuUsage(cpu)
 				p, err := sh.Allow()
 				cpuok := 1
